@@ -15,7 +15,7 @@ M = "MC_HistoryValidation"
 OWN = {"sound", "stored", "returned", "noPanic"}
 # deviation of the coded procedure (HistoryRules!DevNames) -> listed finding
 DEV2FINDING = {"StripWd": "F-C02-1", "TrustSource": "F-C02-2", "NilWdPanic": "F-C02-3", "NumKeyPrefix": "F-C02-4", "NonCanon": "F-C02-5",
-               "SlotIndexPanic": "F-C02-6"}
+               "SlotIndexPanic": "F-C02-6", "StripEmptyWd": "F-C02-7"}
 # stable panic signature of F-C02-3: innermost shisui frame + runtime error class
 PANIC_SIG = {"NilWdPanic": ("history.validateBlockBody", "nil pointer dereference"),
              "SlotIndexPanic": ("validation.HeaderValidator.validateMergeToCapellaHeader", "index out of range")}
@@ -23,7 +23,7 @@ DEVIATION_CFGS = [  # (cfg, property the model must violate with that deviation 
     ("MC_HV_DevStrip.cfg", "Soundness"), ("MC_HV_DevTrust.cfg", "Soundness"), ("MC_HV_DevNil.cfg", "NoPanic"),
     ("MC_HV_DevNumKey.cfg", "Soundness"), ("MC_HV_DevNonCanon.cfg", "Soundness"), ("MC_HV_DevSlot.cfg", "NoPanic"),
     ("MC_HV_DevNoKey.cfg", "Soundness"), ("MC_HV_DevUncle.cfg", "Soundness"), ("MC_HV_DevTx.cfg", "Soundness"),
-    ("MC_HV_DevProof.cfg", "Soundness"), ("MC_HV_DevHashKey.cfg", "Soundness"),
+    ("MC_HV_DevProof.cfg", "Soundness"), ("MC_HV_DevHashKey.cfg", "Soundness"), ("MC_HV_DevStripEmpty.cfg", "Soundness"),
 ]
 SLIM = ("ev", "layer", "k", "c", "s", "out", "stored", "returned", "ib")
 
